@@ -43,6 +43,21 @@ def _cases(tier):
     for trio in itertools.product(small[:4], repeat=3):
         yield {"roots": list(trio), "shared": False, "merge": "default", "fws": ["pydantic", "attrs"]}
         yield {"roots": list(trio), "shared": True, "merge": "default", "fws": ["dataclasses"]}
+    # a scalar key spelled exactly like the class name generated for a later branch (Item / items): what a name-conversion memo
+    # shared between generator objects would confuse; several sub-trees are rendered (and released) before the clashing class
+    for branches in (1, 2, 3, 6):
+        for word, plural in (("Item", "items"), ("Owner", "owner"), ("Tag", "tags")):
+            data = {}
+            for i in range(branches):
+                data[f"a{i}"] = {f"b{i}": {word: i, f"q{i}": 2, f"r{i}": "x"}, f"z{i}": 1.5}
+            data[plural] = [{"x": 1, "y": "s"}]
+            for merge in ("exact", "default"):
+                yield {"j": [data], "merge": merge, "fws": ["pydantic", "dataclasses", "attrs"]}
+    # nested models whose generated class name means something to a framework (pydantic reads an inner `class Config`)
+    for key in ("config", "configs", "Config", "meta", "fields", "model"):
+        val = {"debug": 1, "name": "x"}
+        for data in ({key: val, "v": 1}, {key: [val], "v": 1}, {"outer": {key: val, "w": 2}, "v": 1}):
+            yield {"j": [data], "merge": "default", "fws": ["pydantic", "sqlmodel", "dataclasses"], "once": True}
     for v in A.VALUE_NAMES:
         for v2 in A.VALUE_NAMES[:20] if tier == "quick" else A.VALUE_NAMES:
             yield {"h": [v, v2], "merge": "default", "fws": ["pydantic", "base"]}
@@ -76,6 +91,9 @@ def _build(case, samples):
 def _samples(case):
     if "roots" in case:
         return None
+    if "j" in case:
+        import copy
+        return copy.deepcopy(case["j"])
     if "g" in case:
         return A.graph_samples(case["g"])
     return [A.obj1(n) for n in case["h"]]
@@ -114,18 +132,23 @@ def class_table(prog, b, fw):
 
 def execute(case):
     samples = _samples(case)
-    shape = ["G" + A.graph_name(case["g"])] if "g" in case else (list(case["h"]) if "h" in case else
+    shape = ["G" + A.graph_name(case["g"])] if "g" in case else (list(case["h"]) if "h" in case else ["J" + core.digest(case["j"])] if "j" in case else
                                                                ["R" + A.graph_name(g) for g in case["roots"]] + (["shared_owner"] if case.get("shared") else []))
     viol, obs, outcomes = [], [], []
     execs = 0
     seen = set()
 
     def V(clause, site, detail):
+        if "j" in case and not case.get("once"):
+            site = "repeated_rendering"      # which repetition / framework shows it first depends on allocator state: one site for all
         if (clause, site) in seen:
             return
         seen.add((clause, site))
         viol.append(core.viol(clause, site, shape, detail))
-    for fw in case["fws"]:
+    # "j" cases are rendered several times in a row inside one process: state that outlives a generator object (a memo keyed by an
+    # address that the allocator hands out again) shows up from the second repetition on, in the worker and in the replay alike
+    fws = list(case["fws"]) * (4 if "j" in case and not case.get("once") else 1)
+    for fw in fws:
         fam = "pydantic" if fw == "sqlmodel" else fw
         progs = {}
         tree = None
